@@ -72,7 +72,7 @@ def oracle(c, impl):
     for n, o in enumerate(impl["obs"]):
         # (3) crash-free, fault-free histories: a complete segment directory that no compaction took as an input is
         # named by segments.idx (a published segment does not drop out of the index while its files stay behind)
-        if "index" in o and "BLOCKSEG" not in ops and "X" not in ops and "P" not in ops:
+        if "index" in o and "BLOCKSEG" not in ops and "X" not in ops and "P" not in ops and "HIDE" not in ops:
             listed = {e[0] for e in o["index"]}
             for seg, files in o["hashes"].items():
                 if files and int(seg) not in listed and int(seg) not in inputs and any(f.endswith(".zones") for f in files):
